@@ -48,7 +48,7 @@ func init() {
 
 func c16(r *Run) {
 	w := r.W
-	defer r.importRules(c26, "C26.R3", "C26.R4")
+	defer r.importRules(c26, "C26.R3", "C26.R4", "C26.R6")
 	r.rule("C16.R1", "K1", "every transaction's (unsigned bytes, auth) is added; job sized len(Txs); Done always scheduled", 4)
 	r.rule("C16.R2", "K2", "Execute succeeds only through waitSignatures==nil on the job created by verifySignatures; waitSignatures propagates Job.Wait's error", 3)
 	r.rule("C16.R3", "K7", "AuthBatch.Add submits on both branches; Done drains every worker, forwards leftovers, then closes the job; worker forwards early batches", 6)
@@ -821,6 +821,23 @@ func c26(r *Run) {
 		r.requireEffect(w, "C26.R3", "NewJob:enqueued", nj, "send p0.queue <- alloc(complit)", "!p0.shouldShutdown")
 		// the shutdown test and the enqueue are one atomic step with respect to Stop (which sets the flag and closes the
 		// queue): the send happens with the pool lock held
+		// R6: the pool has one error slot for the job in flight: it is cleared only after that job's result was sent
+		// (never by creating another job, which may happen while the first is still running)
+		r.rule("C26.R6", "K3", "ParallelWorkers.err is written only by the worker (first error) and by the dispatcher after the result was sent", 2)
+		{
+			n := 0
+			for _, fn := range w.FnsInPkg(pkgWorkers) {
+				for _, stI := range fieldStores(fn, pkgWorkers+".ParallelWorkers", "err") {
+					n++
+					name := fnName(fn)
+					okW := strings.Contains(name, "ParallelWorkers).startWorker$") || strings.Contains(name, "ParallelWorkers).processQueue$")
+					r.check(okW, "C26.R6", short(name)+":err-slot-write", r.at(w, stI), "", "the pool's error slot is written in "+short(name)+": the failure recorded for a job still running can be wiped (its Wait then reports success and an invalid signature is accepted)")
+				}
+			}
+			if n < 2 {
+				r.missing("C26.R6", "err-slot-writes", "the worker's and the dispatcher's writes of ParallelWorkers.err were not found")
+			}
+		}
 		r.rule("C26.R5", "K4", "NewJob enqueues under the lock that Stop takes to set the flag and close the queue", 1)
 		sends := findEffects(nj, "send p0.queue <- *")
 		okA := len(sends) == 1 && heldAt(locksets(nj, lockState{}), sends[0], "p0.lock") >= 1
